@@ -8,7 +8,7 @@ open ESV ESV.Beh
 /-- the environment of a loop body -/
 def loopEnv (env : Src.Env) (c bl : Nat) : Src.Env := { env with cont := some c, brkLoop := some bl }
 
-theorem plainEnv_loopEnv {env : Src.Env} (he : PlainEnv env) (c bl : Nat) : PlainEnv (loopEnv env c bl) := ⟨he.1, he.2⟩
+theorem plainEnv_loopEnv {cx : Cx} {env : Src.Env} (he : EnvOK cx env) (c bl : Nat) : EnvOK cx (loopEnv env c bl) := ⟨he.1, he.2, he.3⟩
 
 theorem NoNone.append {a b : List LItem} (ha : NoNone a) (hb : NoNone b) : NoNone (a ++ b) := by
   intro x hx
@@ -39,8 +39,8 @@ theorem tr_forever (fuel : Nat) (env : Src.Env) (B : Src.Stmts) (k : Nat) (b : S
        (tbl b).length) := by
   rw [Src.tr]; rfl
 
-theorem forever_pm (cx : Cx) (fuel : Nat) (env : Src.Env) (he : PlainEnv env) (lb : Nat) (body : Stmts) (bodyM : M (List LItem))
-    (hBody : ∀ env', PlainEnv env' → PM cx bodyM (fun k b => Src.trStmts fuel [] env' (toSrcStmts body) k b) env') :
+theorem forever_pm (cx : Cx) (fuel : Nat) (env : Src.Env) (he : EnvOK cx env) (lb : Nat) (body : Stmts) (bodyM : M (List LItem))
+    (hBody : ∀ env', EnvOK cx env' → PM cx bodyM (fun k b => Src.trStmts fuel [] env' (toSrcStmts body) k b) env') :
     PM cx (foreverOf lb bodyM) (fun k b => Src.tr fuel [] env (.forever (toSrcStmts body)) k b) env := by
   intro s items s' h
   simp only [foreverOf, bind_ok, pushLoop_ok, popLoop_ok, pure_ok] at h
@@ -51,7 +51,7 @@ theorem forever_pm (cx : Cx) (fuel : Nat) (env : Src.Env) (he : PlainEnv env) (l
   obtain ⟨rfl, rfl⟩ := h5
   obtain ⟨e3, rfl⟩ := genJump_stk h3
   obtain ⟨ops, sb, sL, eB, hrun, e2, hitems⟩ := loop_block_shape h2
-  have hP : ∀ env', PlainEnv env' →
+  have hP : ∀ env', EnvOK cx env' →
       PieceOK cx ops (s.pushLoop (lb + 1, lb + 2)) sb (fun k b => Src.trStmts fuel [] env' (toSrcStmts body) k b) env' :=
     fun env' he' => hBody env' he' _ _ _ hrun
   have hP0 := hP env he
@@ -59,7 +59,7 @@ theorem forever_pm (cx : Cx) (fuel : Nat) (env : Src.Env) (he : PlainEnv env) (l
   have hstkC : sd.cases = s.cases := by rw [e3.2, e2.2, hP0.cases]; rfl
   rw [hitems]
   have htr := fun k b => tr_forever fuel env (toSrcStmts body) k b
-  have hgrow : ∀ k b, Grow b (Src.tr fuel [] env (.forever (toSrcStmts body)) k b).1 := by
+  have hgrow : ∀ k b, Grow cx.Z b (Src.tr fuel [] env (.forever (toSrcStmts body)) k b).1 := by
     intro k b
     rw [htr]
     exact ((Grow.push b _).trans ((hP _ (plainEnv_loopEnv he _ _)).grow _ _)).set_ge (Nat.le_refl _) _
